@@ -509,4 +509,154 @@ theorem primOK : PrimOK := by
   rw [if_neg c14] at hp
   cases hp
 
+/-! ## `quoteE` -/
+
+theorem vok_symV (n : Nat) (x : String) : vok n (symV x) = true := rfl
+
+theorem vok_list_cons {n : Nat} {v : Val} {vs : List Val} (hv : vok n v = true) (hvs : ∀ x ∈ vs, vok n x = true) :
+    ∀ x ∈ v :: vs, vok n x = true := by
+  intro x hx
+  rcases List.mem_cons.mp hx with rfl | hx
+  · exact hv
+  · exact hvs x hx
+
+theorem vok_labelSym (n : Nat) (l : Option String) : ∀ x ∈ labelSym l, vok n x = true := by
+  intro x hx
+  cases l <;> simp [labelSym] at hx
+  subst hx; rfl
+
+theorem vok_paramSyms (n : Nat) (ps : List String) (rest : Option String) : ∀ x ∈ paramSyms ps rest, vok n x = true := by
+  intro x hx
+  simp only [paramSyms, List.mem_append, List.mem_map] at hx
+  rcases hx with ⟨p, _, rfl⟩ | hx
+  · rfl
+  · cases rest <;> simp at hx
+    rcases hx with rfl | rfl <;> rfl
+
+theorem vok_alloc {n : Nat} {h : DataHeap} (hh : heapOK n h) (vs : List Val) (hv : ∀ v ∈ vs, vok n v = true) :
+    vok n (h.alloc vs).1 = true ∧ heapOK n (h.alloc vs).2 := ⟨rfl, heapOK_alloc hh vs hv⟩
+
+mutual
+theorem quoteE_ok (n : Nat) : ∀ (e : Expr) (h : DataHeap), heapOK n h →
+    vok n (quoteE e h).1 = true ∧ heapOK n (quoteE e h).2
+  | .int v, h, hh => ⟨by simp [quoteE, intOfLit, vok], hh⟩
+  | .bool b, h, hh => ⟨rfl, hh⟩
+  | .str s, h, hh => ⟨rfl, hh⟩
+  | .nilLit, h, hh => ⟨rfl, hh⟩
+  | .sym x, h, hh => ⟨rfl, hh⟩
+  | .arr es, h, hh => by
+    have := quoteL_ok n es h hh
+    simp only [quoteE]
+    exact vok_alloc this.2 _ this.1
+  | .call f args, h, hh => by
+    have h1 := quoteE_ok n f h hh
+    have h2 := quoteL_ok n args _ h1.2
+    simp only [quoteE]
+    exact ⟨vok_mkList _ (vok_list_cons h1.1 h2.1), h2.2⟩
+  | .begin_ es, h, hh => by
+    have h1 := quoteL_ok n es h hh
+    simp only [quoteE]
+    exact ⟨vok_mkList _ (vok_list_cons rfl h1.1), h1.2⟩
+  | .def_ x e, h, hh => by
+    have h1 := quoteE_ok n e h hh
+    simp only [quoteE]
+    exact ⟨vok_mkList _ (vok_list_cons rfl (vok_list_cons rfl (vok_list_cons h1.1 (fun _ hx => by cases hx)))), h1.2⟩
+  | .set_ x e, h, hh => by
+    have h1 := quoteE_ok n e h hh
+    simp only [quoteE]
+    exact ⟨vok_mkList _ (vok_list_cons rfl (vok_list_cons rfl (vok_list_cons h1.1 (fun _ hx => by cases hx)))), h1.2⟩
+  | .cond arms d, h, hh => by
+    have h1 := quoteArms_ok n arms h hh
+    have h2 := quoteE_ok n d _ h1.2
+    simp only [quoteE]
+    refine ⟨vok_mkList _ (vok_list_cons rfl ?_), h2.2⟩
+    intro x hx
+    rcases List.mem_append.mp hx with hx | hx
+    · exact h1.1 x hx
+    · simp at hx; subst hx; exact h2.1
+  | .and_ es, h, hh => by
+    have h1 := quoteL_ok n es h hh
+    simp only [quoteE]
+    exact ⟨vok_mkList _ (vok_list_cons rfl h1.1), h1.2⟩
+  | .or_ es, h, hh => by
+    have h1 := quoteL_ok n es h hh
+    simp only [quoteE]
+    exact ⟨vok_mkList _ (vok_list_cons rfl h1.1), h1.2⟩
+  | .let_ seq bs body, h, hh => by
+    have h1 := quoteBinds_ok n bs h hh
+    have h2 := vok_alloc h1.2 _ h1.1
+    have h3 := quoteL_ok n body _ h2.2
+    simp only [quoteE]
+    exact ⟨vok_mkList _ (vok_list_cons rfl (vok_list_cons h2.1 h3.1)), h3.2⟩
+  | .newScope es, h, hh => by
+    have h1 := quoteL_ok n es h hh
+    simp only [quoteE]
+    exact ⟨vok_mkList _ (vok_list_cons rfl h1.1), h1.2⟩
+  | .for_ label i t s body, h, hh => by
+    have h1 := quoteE_ok n i h hh
+    have h2 := quoteE_ok n t _ h1.2
+    have h3 := quoteE_ok n s _ h2.2
+    have h4 := vok_alloc h3.2 [(quoteE i h).1, (quoteE t (quoteE i h).2).1, (quoteE s (quoteE t (quoteE i h).2).2).1]
+      (vok_list_cons h1.1 (vok_list_cons h2.1 (vok_list_cons h3.1 (fun _ hx => by cases hx))))
+    have h5 := quoteL_ok n body _ h4.2
+    simp only [quoteE]
+    refine ⟨vok_mkList _ (vok_list_cons rfl ?_), h5.2⟩
+    intro x hx
+    rcases List.mem_append.mp hx with hx | hx
+    · exact vok_labelSym n label x hx
+    · exact vok_list_cons h4.1 h5.1 x hx
+  | .break_ l, h, hh => by
+    simp only [quoteE]
+    exact ⟨vok_mkList _ (vok_list_cons rfl (vok_labelSym n l)), hh⟩
+  | .continue_ l, h, hh => by
+    simp only [quoteE]
+    exact ⟨vok_mkList _ (vok_list_cons rfl (vok_labelSym n l)), hh⟩
+  | .fn ps rest body, h, hh => by
+    have h1 := vok_alloc hh _ (vok_paramSyms n ps rest)
+    have h2 := quoteL_ok n body _ h1.2
+    simp only [quoteE]
+    exact ⟨vok_mkList _ (vok_list_cons rfl (vok_list_cons h1.1 h2.1)), h2.2⟩
+  | .defn name ps rest body, h, hh => by
+    have h1 := vok_alloc hh _ (vok_paramSyms n ps rest)
+    have h2 := quoteL_ok n body _ h1.2
+    simp only [quoteE]
+    exact ⟨vok_mkList _ (vok_list_cons rfl (vok_list_cons rfl (vok_list_cons h1.1 h2.1))), h2.2⟩
+  | .assign _ _, h, hh => ⟨rfl, hh⟩
+  | .bad _, h, hh => ⟨rfl, hh⟩
+theorem quoteL_ok (n : Nat) : ∀ (es : List Expr) (h : DataHeap), heapOK n h →
+    (∀ x ∈ (quoteL es h).1, vok n x = true) ∧ heapOK n (quoteL es h).2
+  | [], h, hh => ⟨fun _ hx => by simp [quoteL] at hx, hh⟩
+  | e :: es, h, hh => by
+    have h1 := quoteE_ok n e h hh
+    have h2 := quoteL_ok n es _ h1.2
+    simp only [quoteL]
+    exact ⟨vok_list_cons h1.1 h2.1, h2.2⟩
+theorem quoteArms_ok (n : Nat) : ∀ (arms : List (Expr × Expr)) (h : DataHeap), heapOK n h →
+    (∀ x ∈ (quoteArms arms h).1, vok n x = true) ∧ heapOK n (quoteArms arms h).2
+  | [], h, hh => ⟨fun _ hx => by simp [quoteArms] at hx, hh⟩
+  | (c, b) :: r, h, hh => by
+    have h1 := quoteE_ok n c h hh
+    have h2 := quoteE_ok n b _ h1.2
+    have h3 := quoteArms_ok n r _ h2.2
+    simp only [quoteArms]
+    exact ⟨vok_list_cons h1.1 (vok_list_cons h2.1 h3.1), h3.2⟩
+theorem quoteBinds_ok (n : Nat) : ∀ (bs : List (String × Expr)) (h : DataHeap), heapOK n h →
+    (∀ x ∈ (quoteBinds bs h).1, vok n x = true) ∧ heapOK n (quoteBinds bs h).2
+  | [], h, hh => ⟨fun _ hx => by simp [quoteBinds] at hx, hh⟩
+  | (x, e) :: r, h, hh => by
+    have h1 := quoteE_ok n e h hh
+    have h2 := quoteBinds_ok n r _ h1.2
+    simp only [quoteBinds]
+    exact ⟨vok_list_cons rfl (vok_list_cons h1.1 h2.1), h2.2⟩
+end
+
+theorem quoteOK : QuoteOK := by
+  intro n e h h' v hh hq
+  have := quoteE_ok n e h hh
+  rw [hq] at this
+  exact this
+
+/-- **The calling contract, unconditionally.** -/
+theorem allSpec' : ∀ n, AllSpec n := allSpec primOK quoteOK
+
 end ZygoVerif.RunInv
